@@ -133,6 +133,8 @@ def d_consistency(objs, universe):
                 return "!%d:iteritems differ from items" % n
             if len(o) != len(keys) or len(set(keys)) != len(keys):
                 return "!%d:len/duplicate keys" % n
+            if list(reversed(o)) != keys[::-1]:
+                return "!%d:reversed() is not the reverse of iteration" % n
             low = isinstance(o, lodict)
             if low and any(k != k.lower() for k in keys):
                 return "!%d:lodict key not lower case" % n
@@ -223,7 +225,29 @@ def d_exec(objs, w):
         o.create(obj(objs, w[2])); return "None"
     if op == "eq":
         return fbool(o == obj(objs, w[2]))
+    if op == "rev":
+        return "k " + sep(list(reversed(o)))
+    if op in ("ior", "or"):
+        return ior_or(objs, o, int(w[1]), op, w)
     raise BadOp()
+
+
+def ior_or(objs, o, i, op, w):
+    """`o |= other` / `o | other` with other a dict, an odict or a list of pairs"""
+    from ioflo.aid.odicting import odict
+    pairs = cpairs(w[2])
+    keys = [k for k, _ in pairs]
+    shapes = [list(pairs)] + ([dict(pairs), odict(pairs)] if len(set(keys)) == len(keys) else [])
+    other = shapes[sel_of(w) % len(shapes)]
+    if op == "ior":
+        o |= other
+        if o is not objs[i]:
+            return "?|= returned another object"
+        return "None"
+    c = o | other
+    if type(c) is not type(o) or c is o:
+        return "?| result type/identity " + type(c).__name__
+    objs.append(c); return "ref %d" % (len(objs) - 1)
 
 
 def m_dump(objs):
@@ -349,6 +373,10 @@ def m_exec(objs, w):
         o.create(*a, **kw); return "None"
     if op == "eq":
         return fbool(o == obj(objs, w[2]))
+    if op == "rev":
+        return "k " + sep(list(reversed(o)))
+    if op in ("ior", "or"):
+        return ior_or(objs, o, int(w[1]), op, w)
     raise BadOp()
 
 
@@ -450,7 +478,8 @@ def s_exec(objs, w):
     raise BadOp()
 
 
-KIND = {"d": (d_exec, d_dump, d_consistency), "m": (m_exec, m_dump, m_consistency), "s": (s_exec, s_dump, s_consistency)}
+KIND = {"d": (d_exec, d_dump, d_consistency), "m": (m_exec, m_dump, m_consistency), "s": (s_exec, s_dump, s_consistency),
+        "p": (s_exec, s_dump, s_consistency)}      # "p": the same oset calls, answered by the cell-level Lean model
 
 
 def universe_of(case):
@@ -464,26 +493,43 @@ def universe_of(case):
 
 
 CASE_LIMIT_S = 10          # a case normally takes well under a millisecond
+_timeouts = [0]
+
+
+class _CallTimeout(BaseException):
+    pass
 
 
 def _alarm(signum, frame):
-    raise core.HarnessTimeout("a container call did not return within %d s" % CASE_LIMIT_S)
+    raise _CallTimeout()
 
 
 def run_impl(case):
+    """a call that does not return within the limit ends the case with the line TIMEOUT: if the lines before it
+    already violate the property that is reported; if the timeout is the only symptom the run ends as an
+    infrastructure failure (exit 2), never as a verdict (DESIGN 2.2)"""
     import signal
+    limit = CASE_LIMIT_S if _timeouts[0] == 0 else 1
+    if _timeouts[0] > 20:
+        raise core.HarnessTimeout("more than 20 container calls did not return within the limit")
+    out = []
     old = signal.signal(signal.SIGALRM, _alarm)
-    signal.setitimer(signal.ITIMER_REAL, CASE_LIMIT_S)
+    signal.setitimer(signal.ITIMER_REAL, limit)
     try:
-        return _run_impl(case)
+        _run_impl(case, out)
+    except _CallTimeout:
+        _timeouts[0] += 1
+        out.append("TIMEOUT")
     finally:
         signal.setitimer(signal.ITIMER_REAL, 0)
         signal.signal(signal.SIGALRM, old)
+    return out
 
 
-def _run_impl(case):
+def _run_impl(case, out):
     ex, dump, cons = KIND[case["kind"]]
-    objs, out = [], ["ok"]
+    objs = []
+    out.append("ok")
     uni = universe_of(case)
     for w in case["ops"]:
         try:
@@ -633,6 +679,16 @@ def ref_d(ops):
                 elif op == "eq":
                     p = obj(objs, w[2])
                     r = fbool(sorted(o.items()) == sorted(p.items()))
+                elif op == "rev":
+                    r = "k " + sep(k for k, _ in o.it[::-1])
+                elif op == "ior":
+                    for k, v in cpairs(w[2]):
+                        o.set(k, v)
+                elif op == "or":
+                    c = RefD(o.low, o.items())
+                    for k, v in cpairs(w[2]):
+                        c.set(k, v)
+                    r = new(c)
                 else:
                     raise BadOp()
         except BadOp:
@@ -672,7 +728,7 @@ def ref_m(ops):
                 r = new([[k, list(l)] for k, l in obj(objs, w[1])])
             else:
                 o = obj(objs, w[1]); r = "None"
-                e = find(o, w[2]) if len(w) > 2 and op not in ("popitem", "poplistitem", "fromkeys", "update", "updatefrom", "create", "eq") else None
+                e = find(o, w[2]) if len(w) > 2 and op not in ("popitem", "poplistitem", "fromkeys", "update", "updatefrom", "create", "eq", "ior", "or") else None
                 if op in ("set", "append"):
                     add(o, w[2], int(w[3]))
                 elif op == "getitem":
@@ -746,6 +802,14 @@ def ref_m(ops):
                 elif op == "eq":
                     p = obj(objs, w[2])
                     r = fbool(sorted(map(repr, o)) == sorted(map(repr, p)))
+                elif op == "rev":
+                    r = "k " + sep(k for k, _ in o[::-1])
+                elif op == "ior":
+                    for k, v in cpairs(w[2]): add(o, k, v)
+                elif op == "or":
+                    c = [[k, list(l)] for k, l in o]
+                    for k, v in cpairs(w[2]): add(c, k, v)
+                    r = new(c)
                 else:
                     raise BadOp()
         except BadOp:
@@ -890,7 +954,7 @@ def gen_d(rng, n_ops, keys=DKEYS):
         elif c < 8: ops.append(["getitem", oi(), key()])
         elif c < 9: ops.append(["has", oi(), key()])
         elif c < 10: ops.append(["get", oi(), key(), optv()])
-        elif c < 11: ops.append([rng.choice(["len", "keys", "values", "items"]), oi()])
+        elif c < 11: ops.append([rng.choice(["len", "keys", "values", "items", "rev", "rev"]), oi()])
         elif c < 13: ops.append(["append", oi(), key(), val()])
         elif c < 14: ops.append(["clear", oi()] if rng.random() < 0.3 else ["reorderbad", oi()])
         elif c < 16 and n < 6: ops.append([rng.choice(["copy", "copy", "pickle"]), oi()]); n += 1
@@ -902,7 +966,10 @@ def gen_d(rng, n_ops, keys=DKEYS):
         elif c < 29: ops.append(["popitem", oi()])
         elif c < 32: ops.append(["reorder", oi(), oi()])
         elif c < 34: ops.append(["setdefault", oi(), key(), val()])
-        elif c < 36: ops.append(["updatep", oi(), rpairs(rng, keys)])
+        elif c < 35: ops.append(["updatep", oi(), rpairs(rng, keys)])
+        elif c < 36:
+            if rng.random() < 0.5 or n >= 6: ops.append(["ior", oi(), rpairs(rng, keys)])
+            else: ops.append(["or", oi(), rpairs(rng, keys)]); n += 1
         elif c < 37: ops.append([rng.choice(["update", "create"]), oi(), oi()])
         elif c < 38: ops.append(["eq", oi(), oi()])
         elif c < 39 and n < 6: ops.append(["new", rng.choice(["od", "lod"]), rpairs(rng, keys, 0, 5)]); n += 1
@@ -935,7 +1002,12 @@ def gen_m(rng, n_ops, keys=MKEYS):
         elif c < 30: ops.append(["popitem", oi(), last(), idx()])
         elif c < 32: ops.append(["poplistitem", oi(), last()])
         elif c < 33 and n < 5: ops.append(["fromkeys", oi(), sep(key() for _ in range(rng.randrange(0, 4))), val()]); n += 1
-        elif c < 36: ops.append(["update", oi(), rpairs(rng, keys)])
+        elif c < 35: ops.append(["update", oi(), rpairs(rng, keys)])
+        elif c < 36:
+            k = rng.random()
+            if k < 0.3: ops.append(["rev", oi()])
+            elif k < 0.65 or n >= 5: ops.append(["ior", oi(), rpairs(rng, keys)])
+            else: ops.append(["or", oi(), rpairs(rng, keys)]); n += 1
         elif c < 37 and n > 1:
             i = rng.randrange(n); j = rng.choice([x for x in range(n) if x != i])
             ops.append(["updatefrom", str(i), str(j)])
@@ -943,6 +1015,24 @@ def gen_m(rng, n_ops, keys=MKEYS):
         elif c < 39: ops.append(["eq", oi(), oi()])
         elif n < 5: ops.append(rng.choice([["new", rpairs(rng, keys, 0, 6)], ["newfrom", oi()]])); n += 1
     return {"kind": "m", "ops": ops}
+
+
+def gen_p(rng, n_ops, keys=SKEYS):
+    """only the calls oset implements itself on its cells: add / discard / pop / in / len / iteration / reversed"""
+    def klist(lo=0, hi=6): return sep(rng.choice(keys) for _ in range(rng.randrange(lo, hi + 1)))
+    ops, n = [["new", klist()]], 1
+    def oi(): return str(rng.randrange(n))
+    for _ in range(n_ops):
+        c = rng.randrange(20)
+        if c < 6: ops.append(["add", oi(), rng.choice(keys)])
+        elif c < 11: ops.append(["discard", oi(), rng.choice(keys)])
+        elif c < 15: ops.append(["pop", oi(), rng.choice(["0", "1"])])
+        elif c < 16: ops.append(["has", oi(), rng.choice(keys)])
+        elif c < 17: ops.append(["len", oi()])
+        elif c < 18: ops.append(["iter", oi()])
+        elif c < 19: ops.append(["rev", oi()])
+        elif n < 3: ops.append(["new", klist()]); n += 1
+    return {"kind": "p", "ops": ops}
 
 
 def gen_s(rng, n_ops, keys=SKEYS):
@@ -973,8 +1063,8 @@ def gen_s(rng, n_ops, keys=SKEYS):
     return {"kind": "s", "ops": ops}
 
 
-ALLOC = {"d": {"new", "newfrom", "copy", "sift", "pickle"}, "m": {"new", "newfrom", "copy", "fromkeys", "pickle"},
-         "s": {"new", "or", "and", "sub", "rsub", "xor", "pickle"}}
+ALLOC = {"d": {"new", "newfrom", "copy", "sift", "pickle", "or"}, "m": {"new", "newfrom", "copy", "fromkeys", "pickle", "or"},
+         "s": {"new", "or", "and", "sub", "rsub", "xor", "pickle"}, "p": {"new"}}
 
 
 class CHECK(core.Check):
@@ -1000,13 +1090,14 @@ class CHECK(core.Check):
                "pickle / copy.copy / copy.deepcopy round trips are compared with the model's copy() (reconstruction from "
                "items()); pickle itself (protocol machinery, protocols 0 and 1 which odicting documents as unsupported) is "
                "not modelled",
-               "oset: the doubly linked list + map are modelled as the list of keys in link order; the pointer "
-               "manipulation of add/discard is tied to the model only by the correspondence runs",
+               "oset: two models - the cells/sentinel/map structure (Model/OsetLinks.lean, add/discard/pop/iteration, proved to "
+               "represent the key list: C39_oset_links_refine_list) and the key-list model on which the MutableSet mixin "
+               "methods are transcribed; Python object identity of cells = index, garbage cells are never reused",
                "modict.update(itself) never returns (appends to the lists it iterates): excluded from the generated calls",
                "modict's inherited insert/reorder/sift(fields) store bare values instead of lists (broken for modict): "
                "not in the modelled call alphabet",
-               "lodict/modict setdefault/get `kind=` casts, non-string lodict keys, unhashable keys, dict methods "
-               "inherited from Python >= 3.8 (reversed(), |, |=) : not modelled",
+               "lodict/modict setdefault/get `kind=` casts, non-string lodict keys, unhashable keys, `dict | odict` "
+               "(reflected operand: a plain dict): not modelled",
                "lodict == other compares raw keys (inherited dict.__eq__): modelled as such, not claimed case-insensitive"]
     TECHNIQUE = "Lean 4 theorems (invariants + refinement by induction over call histories) + differential correspondence"
     LEVEL_TEXT = ("Full proofs on the model (no _partial theorem). odict: the transcribed two-structure implementation (dict part + "
@@ -1019,17 +1110,21 @@ class CHECK(core.Check):
                   "ever, every stored value kept in order and m[k] the newest (C39_modict_refines_multimap, C39_modict_history, "
                   "C39_modict_keeps_all_returns_newest). oset: add/discard loops and the MutableSet mixins equal the filter-based "
                   "reference ordered set, never a duplicate, membership of | & - ^ (C39_oset_refines_ordered_set, C39_oset_history, "
-                  "C39_oset_nodup, C39_oset_algebra_membership). Several live objects with by-reference arguments and aliasing: all "
+                  "C39_oset_nodup, C39_oset_algebra_membership); the cell-level structure of oset (sentinel, [key, prev, next] cells, map) "
+                  "represents that list and its add/discard/pop/in/len/iteration/reversed agree with the list model "
+                  "(C39_oset_links_refine_list, C39_oset_links_init). Several live objects with by-reference arguments and aliasing: all "
                   "stay well formed, a call changes only its receiver, copies are equal and independent (C39_heap_invariant, "
-                  "C39_heap_history_invariant, C39_heap_frame, C39_copy_equal_independent). The model is of /repo + fixes D23 (x3), "
-                  "D39a-d and is tied to the code by running the same call sequences on the real objects.")
+                  "C39_heap_history_invariant, C39_heap_frame, C39_copy_equal_independent). The model is of /repo (which has the fixes "
+                  "D23 x3, D39a-d) + fixes/D39e (odict.__reversed__/__or__/__ior__) and is tied to the code by running the same call "
+                  "sequences on the real objects.")
     LEVEL_NOTE = ("Trusted: Lean kernel; axioms propext, Classical.choice, Quot.sound; the hand transcription of odicting.py / "
                   "osetting.py and of CPython's dict/list/MutableSet behaviour it relies on (Model/Containers.lean), validated only by "
                   "the correspondence runs (random sequences up to 30 calls on up to 6-7 live objects + all sequences of <= 2 (quick) / "
                   "<= 3 (thorough) calls from reduced alphabets); the reference containers of Model/ContainersSpec.lean as the meaning "
                   "of 'insertion-ordered dictionary / multi-dictionary / set' (an intersection is ordered by its second operand, as "
                   "collections.abc.Set.__and__ does; the Python oracle accepts either operand's order); keys ASCII alphanumeric, "
-                  "values ints; oset modelled as a list, not as the linked structure.")
+                  "values ints; the MutableSet mixin methods of oset are transcribed on the key-list model (the cell-level model covers "
+                  "the methods oset defines itself).")
 
     # ---- cases
     def generate(self, rng, n, tier):
@@ -1038,10 +1133,12 @@ class CHECK(core.Check):
             k = rng.random()
             if k < 0.5:
                 yield gen_d(rng, n_ops)
-            elif k < 0.75:
+            elif k < 0.72:
                 yield gen_m(rng, n_ops)
-            else:
+            elif k < 0.92:
                 yield gen_s(rng, n_ops)
+            else:
+                yield gen_p(rng, n_ops)
 
     def exhaustive(self, tier):
         depth = 3 if tier == "thorough" else 2
@@ -1053,10 +1150,10 @@ class CHECK(core.Check):
                       ["pop", i, "A", "~"], ["pop", i, "a", "7"], ["popitem", i], ["createp", i, "A=8,c=9"],
                       ["updatep", i, "c=3,A=4"], ["setdefault", i, "B", "0"], ["sift", i, "A"], ["append", i, "A", "1"],
                       ["reorder", i, "0"], ["reorder", i, "1"], ["copy", i], ["pickle", i], ["getitem", i, "A"],
-                      ["has", i, "B"]]
+                      ["has", i, "B"], ["ior", i, "c=7,A=8"], ["or", i, "B=1"], ["rev", i]]
         for d in range(1, depth + 1):
             if d == 3:
-                sub = [a for a in alpha if a[0] not in ("getitem", "has", "copy", "sift", "pickle")]
+                sub = [a for a in alpha if a[0] not in ("getitem", "has", "copy", "sift", "pickle", "or", "rev")]
             else:
                 sub = alpha
             for seq in itertools.product(sub, repeat=d):
@@ -1066,7 +1163,8 @@ class CHECK(core.Check):
                   ["pop", "0", "a", "~", "0"], ["pop", "0", "c", "7", "-1"], ["poplist", "0", "b", "~"],
                   ["popitem", "0", "0", "-1"], ["popitem", "0", "1", "0"], ["poplistitem", "0", "0"],
                   ["setdefault", "0", "a", "5"], ["setdefault", "0", "c", "5"], ["get", "0", "a", "~", "-1"],
-                  ["get", "0", "a", "8", "2"], ["update", "0", "b=1,c=2,b=3"], ["create", "0", "a=1,c=2"], ["copy", "0"], ["pickle", "0"],
+                  ["get", "0", "a", "8", "2"], ["update", "0", "b=1,c=2,b=3"], ["create", "0", "a=1,c=2"], ["copy", "0"], ["pickle", "0"], ["ior", "0", "a=6,d=7"],
+                  ["rev", "0"],
                   ["getitem", "0", "a"], ["allitems", "0"]]
         for d in range(1, depth + 1):
             for seq in itertools.product(alpham, repeat=d):
@@ -1081,6 +1179,11 @@ class CHECK(core.Check):
         for d in range(1, depth + 1):
             for seq in itertools.product(alphas, repeat=d):
                 yield {"kind": "s", "ops": pres + [list(x) for x in seq]}
+        alphap = [["add", "0", "d"], ["add", "0", "b"], ["discard", "0", "a"], ["discard", "0", "b"], ["discard", "0", "c"],
+                  ["discard", "0", "x"], ["pop", "0", "1"], ["pop", "0", "0"], ["rev", "0"], ["has", "0", "b"], ["len", "0"]]
+        for d in range(1, depth + 2):
+            for seq in itertools.product(alphap, repeat=d):
+                yield {"kind": "p", "ops": [["new", "a,b,c"]] + [list(x) for x in seq]}
 
     # ---- both sides
     def requests(self, case):
@@ -1091,10 +1194,18 @@ class CHECK(core.Check):
 
     # ---- the property, stated on the implementation's output
     def oracle(self, case, out):
+        if out and out[-1] == "TIMEOUT":
+            # judge what was observed before the call that did not return; alone it is not a verdict
+            k = len(out) - 1
+            why = self.oracle({"kind": case["kind"], "ops": case["ops"][:k - 1]}, out[:k])
+            if why is None:
+                raise core.HarnessTimeout("call %d (%s) did not return within the limit and nothing before it violates "
+                                          "the property" % (k, " ".join(case["ops"][k - 1]) if k - 1 < len(case["ops"]) else "?"))
+            return why + "  [a later call (%d) did not return]" % k
         for n, line in enumerate(out):
             if " !" in line or "?" in line or "ERR other" in line or line.startswith("HARNESS-EXC"):
                 return "step %d %s: %s" % (n, " ".join(case["ops"][n - 1]) if n else "", line[-160:])
-        if case["kind"] == "s":
+        if case["kind"] in ("s", "p"):
             return oracle_s(case, out)
         want = (ref_d if case["kind"] == "d" else ref_m)(case["ops"])
         if len(want) != len(out):
@@ -1114,7 +1225,7 @@ class CHECK(core.Check):
         n = len(case["ops"])
         errs = sum(1 for l in out[1:] if l.startswith("ERR"))
         size = "len<=4" if n <= 4 else "len5-12" if n <= 12 else "len13+"
-        return "%s/%s/%s" % ({"d": "odict+lodict", "m": "modict", "s": "oset"}[case["kind"]], size,
+        return "%s/%s/%s" % ({"d": "odict+lodict", "m": "modict", "s": "oset", "p": "oset-cells"}[case["kind"]], size,
                              "no-raise" if errs == 0 else "raises<=25%" if errs * 4 <= n else "raises>25%")
 
     def shrink_candidates(self, case):
